@@ -178,6 +178,14 @@ package gorm
 //@   ensures keeps-connpool: result.Statement.ConnPool == db.Statement.ConnPool [C05]
 //@   ensures keeps-config: result.Config == db.Config [C19]
 
+//@ # C01: a select text that holds a placeholder for every extra argument is bound as an expression; it never
+//@ # reaches the raw select list together with arguments (which would be written into the statement as text).
+//@ site select-list-takes-no-text-with-a-placeholder-per-argument
+//@   match store Statement.Selects
+//@   in gorm.(*DB).Select
+//@   min-sites 6
+//@   assert arguments-of-a-placeholder-text-are-bound: is(query, string) && len(args) > 0 ==> uf("strcount", query.(string), "?") < len(args) [C01]
+
 //@ func (*DB).Distinct
 //@   tags C06
 //@   requires db.clone > 0
@@ -412,7 +420,7 @@ package gorm
 //@ spec whereExprs(stmt) = stmt.Clauses["WHERE"].Expression.(clause.Where).Exprs
 
 //@ func (SoftDeleteQueryClause).ModifyStatement
-//@   tags C08
+//@   tags C08 C09
 //@   inline-call (*Statement).AddClause
 //@   assumes where-is-where: has(stmt.Clauses, "WHERE") ==> is(stmt.Clauses["WHERE"].Expression, clause.Where)
 //@   let hadWhere = has(stmt.Clauses, "WHERE")
